@@ -309,12 +309,18 @@ def make_object(kind: str, seed: int, D: int, pool_grids: List[Grid]):
                 with torch.no_grad():
                     p.add_(gen.randn(seed + 3, p.shape, 0.1))
             return t
+        if name == "QuaternionRotation" and grid.ndim != 3:
+            name, cls = "EulerRotation", S.EulerRotation
         probe = cls(grid, params=False, **kw)
         shp = (1,) + tuple(probe.data_shape)
         scale = 0.02
         init = gen.randn(seed, shp, scale)
         if name == "HomogeneousTransform":
             init = init + torch.eye(shp[-2], shp[-1])
+        if name in ("IsotropicScaling", "AnisotropicScaling"):
+            init = init + 1.0
+        if name == "QuaternionRotation":
+            init = init + torch.tensor([0.0, 0.0, 0.0, 1.0])
         if pk == "P":
             return cls(grid, params=Parameter(init), **kw)
         if pk == "B":
@@ -326,7 +332,8 @@ def make_object(kind: str, seed: int, D: int, pool_grids: List[Grid]):
 
 
 TRANSFORM_KINDS = [f"T:{n}/{k}" for n in ("Translation", "EulerRotation", "DisplacementFieldTransform", "StationaryVelocityFieldTransform",
-                                          "FreeFormDeformation", "StationaryVelocityFreeFormDeformation") for k in ("P", "B", "C")] + ["T:RigidTransform/P", "T:AffineTransform/P", "T:HomogeneousTransform/P", "T:HomogeneousTransform/B"]
+                                          "FreeFormDeformation", "StationaryVelocityFreeFormDeformation") for k in ("P", "B", "C")] + ["T:RigidTransform/P", "T:AffineTransform/P", "T:HomogeneousTransform/P", "T:HomogeneousTransform/B"] + [
+                       f"T:{n}/{k}" for n in ("IsotropicScaling", "AnisotropicScaling", "Shearing", "QuaternionRotation") for k in ("P", "B")]
 OBJECT_KINDS = ["Grid", "Cube", "Image", "ImageBatch", "FlowField", "FlowFields", "Tensor"] + TRANSFORM_KINDS
 
 
@@ -580,13 +587,37 @@ def _t_grid(o, r):
 def _t_data(o, r):
     cur = o.data() if getattr(o, "params", None) is not None and not callable(o.params) or hasattr(o, "p") else None
     shp = (1,) + tuple(o.data_shape)
-    return gen.randn(r.randrange(10**6), shp, 0.03)
+    v = gen.randn(r.randrange(10**6), shp, 0.03)
+    return r.tensor("data", v) if hasattr(r, "tensor") else v
+
+
+def _t_cond(r):
+    v = gen.randn(r.randrange(10**6), (3,))
+    return r.tensor("cond", v) if hasattr(r, "tensor") else v
+
+
+def _t_setter_arg(o, r, which: str):
+    """Tracked argument of a named setter of a linear model (offset_, angles_, scales_, quaternion_, matrix_)."""
+    seed = r.randrange(10**6)
+    if which == "matrix_":
+        if type(o).__name__ == "HomogeneousTransform":
+            v = (torch.eye(o.ndim, o.ndim + 1) + gen.randn(seed, (o.ndim, o.ndim + 1), 0.05)).unsqueeze(0)
+        else:
+            v = gen.rotation_matrix(3, [r.uniform(-0.4, 0.4) for _ in range(3)]).float().unsqueeze(0)
+        return r.tensor("matrix", v)
+    shp = (1,) + tuple(o.data_shape)
+    v = gen.randn(seed, shp, 0.1)
+    if which == "scales_":
+        v = v + 1.0
+    if which == "quaternion_":
+        v = v + torch.tensor([0.0, 0.0, 0.0, 1.0])
+    return r.tensor(which.rstrip("_"), v)
 
 
 ACC["Transform"] = {
     "grid": lambda o, r: o.grid(_t_grid(o, r)),
     "data": lambda o, r: o.data(_t_data(o, r)),
-    "condition": lambda o, r: o.condition(gen.randn(r.randrange(10**6), (3,))),
+    "condition": lambda o, r: o.condition(_t_cond(r)),
     "inverse": lambda o, r: o.inverse(link=r.choice([False, True]), update_buffers=r.choice([False, True])),
     "inv": lambda o, r: o.inv,
     "unlink": lambda o, r: o.unlink(),
@@ -613,16 +644,16 @@ READONLY: Dict[str, Callable] = {
 
 INPLACE: Dict[str, Dict[str, Callable]] = {
     "Grid": {
-        "center_": lambda o, r: o.center_(_vec(r, o.ndim)),
-        "origin_": lambda o, r: o.origin_(_vec(r, o.ndim)),
-        "spacing_": lambda o, r: o.spacing_(tuple(r.choice([0.5, 1.0, 2.0]) for _ in range(o.ndim))),
+        "center_": lambda o, r: o.center_(_vec_arg(r, o, r.choice(["center", "origin"]))),
+        "origin_": lambda o, r: o.origin_(_vec_arg(r, o, r.choice(["origin", "center"]))),
+        "spacing_": lambda o, r: o.spacing_(_arr(r, [r.choice([0.5, 1.0, 2.0]) for _ in range(o.ndim)], "spacing")),
         "direction_": lambda o, r: o.direction_(_rotm(r, o.ndim)),
         "align_corners_": lambda o, r: o.align_corners_(not o.align_corners()),
     },
     "Cube": {
-        "center_": lambda o, r: o.center_(_vec(r, o.ndim)),
-        "origin_": lambda o, r: o.origin_(_vec(r, o.ndim)),
-        "extent_": lambda o, r: o.extent_(tuple(r.choice([4.0, 6.5]) for _ in range(o.ndim))),
+        "center_": lambda o, r: o.center_(_vec_arg(r, o, "center")),
+        "origin_": lambda o, r: o.origin_(_vec_arg(r, o, "center")),
+        "extent_": lambda o, r: o.extent_(_arr(r, [r.choice([4.0, 6.5]) for _ in range(o.ndim)], "extent")),
         "direction_": lambda o, r: o.direction_(_rotm(r, o.ndim)),
     },
     "Image": {"grid_": lambda o, r: o.grid_(_img_grid(o).center(_vec(r, _img_grid(o).ndim))), "normalize_": lambda o, r: o.normalize_()},
@@ -632,7 +663,12 @@ INPLACE: Dict[str, Dict[str, Callable]] = {
     "Transform": {
         "grid_": lambda o, r: o.grid_(_t_grid(o, r)),
         "data_": lambda o, r: o.data_(_t_data(o, r)),
-        "condition_": lambda o, r: o.condition_(gen.randn(r.randrange(10**6), (3,))),
+        "condition_": lambda o, r: o.condition_(_t_cond(r)),
+        "offset_": lambda o, r: o.offset_(_t_setter_arg(o, r, "offset_")),
+        "angles_": lambda o, r: o.angles_(_t_setter_arg(o, r, "angles_")),
+        "scales_": lambda o, r: o.scales_(_t_setter_arg(o, r, "scales_")),
+        "quaternion_": lambda o, r: o.quaternion_(_t_setter_arg(o, r, "quaternion_")),
+        "matrix_": lambda o, r: o.matrix_(_t_setter_arg(o, r, "matrix_")),
         "reset_parameters": lambda o, r: o.reset_parameters(),
         "clear_buffers": lambda o, r: o.clear_buffers(),
         "unlink_": lambda o, r: o.unlink_(),
@@ -1035,7 +1071,9 @@ class FrameWorld:
         fn = INPLACE.get(tag, {}).get(op["name"])
         if fn is None:
             return StepResult("skipped")
-        r = random.Random(op["seed"])
+        if tag == "Transform" and op["name"].endswith("_") and op["name"] in ("offset_", "angles_", "scales_", "quaternion_", "matrix_") and not hasattr(obj, op["name"]):
+            return StepResult("skipped")
+        r = TrackedRandom(op["seed"])
         extra = None
         if op["name"] == "fit":
             # fit(flow): the flow argument is an input; the fitted transform must not end up sharing its storage
@@ -1050,6 +1088,12 @@ class FrameWorld:
             extra = {"fit:flow": flow}
             fn = lambda o, r_, flow=flow: o.fit(flow, steps=r_.choice([1, 2]), lr=0.01)
         status, result, viol = self.run_op(lambda: fn(obj, r), oid, "mutate", "inplace:" + op["name"], None, extra=list(extra.items()) if extra else None)
+        for nm, t_, clone in r.tracked:
+            # the argument of an in-place variant is an input like any other: the receiver changes, the argument does not
+            self.c["checks"]["frame:setter_argument"] += 1
+            if t_.shape != clone.shape or t_.dtype != clone.dtype or not torch.equal(torch.nan_to_num(t_.detach()), torch.nan_to_num(clone)):
+                viol.append(Violation("C15", "argument-mutated", f"argument-mutated/inplace:{op['name']}/{tag}/{nm}", {"arg": nm, "at": status}))
+                break
         if extra is not None and status == "ok":
             shared = {x_ for x_ in resources(fingerprint(obj)) & resources(fingerprint(extra["fit:flow"])) if x_[0] == "S"}
             self.c["checks"]["argument_not_captured"] += 1
@@ -1206,7 +1250,8 @@ class _Gen:
         if oid is None:
             return None
         tag = self.meta[oid]["tag"]
-        return {"op": "inplace", "h": oid, "name": rng.choice(sorted(INPLACE[tag])), "seed": rng.subseed()}
+        names = sorted(n for n in INPLACE[tag] if n in ("fit", "remove_update_hook") or hasattr(self.pool[oid], n))
+        return {"op": "inplace", "h": oid, "name": rng.choice(names), "seed": rng.subseed()}
 
     def gen_raw(self, rng):
         oid = self.pick(rng, lambda k, v: isinstance(v, (Tensor, SpatialTransform)))
